@@ -11,7 +11,12 @@ from pipeline import correspondence, field, parse_loc, pipe_req
 from props.graphfacts import conclude, replay  # noqa: F401
 
 THEOREMS = ["Rva.lint_codes_nodup", "Rva.lint_tables_total", "Rva.lint_severity_functional",
-            "Rva.saveToZero_reported", "Rva.invalidSegment_reported", "Rva.unknownEcall_reported", "Rva.runLints_contains"]
+            "Rva.saveToZero_reported", "Rva.invalidSegment_reported", "Rva.unknownEcall_reported", "Rva.runLints_contains",
+            "Rva.deadAssignment_reported", "Rva.deadValue_silent", "Rva.lostRegister_reported",
+            "Rva.lostRegister_silent", "Rva.overlapping_reported", "Rva.unreachable_reported",
+            "Rva.jumpToFunction_reported", "Rva.functionFirst_reported", "Rva.controlFlow_silent",
+            "Rva.garbageRead_reported", "Rva.garbageRead_silent", "Rva.stack_first_stop",
+            "Rva.stackOffset_reported"]
 
 
 def find(lines, pred):
@@ -179,7 +184,7 @@ def inject(rng, lines):
 
 def run(res, tier, seed):
     rng = random.Random(seed)
-    proof_ok = proof_stage(res, "Rva.Proofs.C05", THEOREMS, extra_modules=["Rva.Proofs.Tables"])
+    proof_ok = proof_stage(res, "Rva.Proofs.C05b", THEOREMS, extra_modules=["Rva.Proofs.C05", "Rva.Proofs.Tables"])
     n = 12 if tier == "quick" else 150
     cases = []
     for _ in range(n):
